@@ -6,6 +6,7 @@ package kvgate
 import (
 	"context"
 	"errors"
+	"strings"
 	"sync"
 
 	"github.com/nuts-foundation/go-stoabs"
@@ -67,9 +68,24 @@ func (g *Store) obs(actor, ev string, f map[string]any) {
 type wtx struct {
 	stoabs.WriteTx
 	g *Store
+	// failShelf: every Put on this shelf fails (directive "failput:<shelf>" at write.begin): a storage error in the
+	// middle of the write function
+	failShelf string
 }
 
 func (w wtx) Store() stoabs.KVStore { return w.g }
+
+func (w wtx) GetShelfWriter(shelf string) stoabs.Writer {
+	inner := w.WriteTx.GetShelfWriter(shelf)
+	if w.failShelf != "" && shelf == w.failShelf {
+		return failingWriter{inner}
+	}
+	return inner
+}
+
+type failingWriter struct{ stoabs.Writer }
+
+func (failingWriter) Put(stoabs.Key, []byte) error { return ErrInjected }
 
 type rtx struct {
 	stoabs.ReadTx
@@ -118,9 +134,14 @@ func (g *Store) Write(ctx context.Context, fn func(stoabs.WriteTx) error, opts .
 	}
 	a := gate.Actor(ctx)
 	gated := a != "" && !g.inHook(a)
+	failShelf := ""
 	if gated {
-		if g.S.At(a, "write.begin") == "dead" {
+		d := g.S.At(a, "write.begin")
+		if d == "dead" {
 			return ErrDead
+		}
+		if strings.HasPrefix(d, "failput:") {
+			failShelf = strings.TrimPrefix(d, "failput:")
 		}
 	}
 	// strip the hooks and re-invoke them behind gates
@@ -163,7 +184,7 @@ func (g *Store) Write(ctx context.Context, fn func(stoabs.WriteTx) error, opts .
 			g.obs(a, "commit.hook.done", nil)
 		}))
 	return g.KVStore.Write(ctx, func(tx stoabs.WriteTx) error {
-		err := fn(wtx{tx, g})
+		err := fn(wtx{tx, g, failShelf})
 		if g.isDead() {
 			return ErrDead
 		}
@@ -173,6 +194,9 @@ func (g *Store) Write(ctx context.Context, fn func(stoabs.WriteTx) error, opts .
 				res = "err"
 			}
 			f := map[string]any{"res": res}
+			if failShelf != "" {
+				f["late"] = failShelf
+			}
 			if g.InTx != nil {
 				g.InTx(tx, f)
 			}
